@@ -181,8 +181,8 @@ TxTouch(e) ==
   /\ UNCHANGED <<head, tail, ent, bal, mbp, alist, revoked, phase, signer, cur, cache, evA>>
 
 TxSetMBP(m) ==
-  /\ phase = "in" /\ m # mbp
-  /\ mbp' = m /\ evE' = TRUE                                  \* Params event
+  /\ phase = "in"
+  /\ mbp' = m /\ evE' = TRUE                                  \* Params event - also when the value stays the same
   /\ UNCHANGED <<head, tail, ent, bal, alist, revoked, phase, signer, cur, cache, evA>>
 
 \* end of the block: poaCacher.Handle
